@@ -15,6 +15,10 @@ type Env struct {
 	pkg    *types.Package
 	names  map[string]Val
 	lookup func(name string) (Val, bool)
+	// address of an address-taken local variable (the cell go/ssa allocates for it): addr(x)
+	addrOf func(name string) (Val, bool)
+	// allocation counter at the header of the innermost enclosing loop, for the current iteration: iterfresh(x)
+	iterAlloc func() (string, bool)
 	// oldLookup resolves names inside old(...): parameters at their entry values
 	oldLookup func(name string) (Val, bool)
 	visitedComp func() string
@@ -707,6 +711,21 @@ func (env *Env) call(x *Expr) Val {
 			t = "(s_arr " + a.T + ")"
 		}
 		return Val{T: "(> " + t + " " + e.get(env.old, "alloc") + ")", Ty: boolT}
+	case "iterfresh":
+		// x was allocated during the current iteration of the innermost enclosing loop
+		a := env.tr(x.Args[0])
+		if env.iterAlloc == nil {
+			sfail("iterfresh() needs a program point inside a loop")
+		}
+		h, ok := env.iterAlloc()
+		if !ok {
+			sfail("iterfresh(): no enclosing loop")
+		}
+		t := a.T
+		if e.sortOf(a.Ty) == "Slice" {
+			t = "(s_arr " + a.T + ")"
+		}
+		return Val{T: "(> " + t + " " + h + ")", Ty: boolT}
 	case "ite":
 		c := env.tr(x.Args[0])
 		a := env.tr(x.Args[1])
@@ -723,8 +742,14 @@ func (env *Env) call(x *Expr) Val {
 	case "addr":
 		// address of a field: addr(x.f) -> fa$T$f(x)
 		ax := x.Args[0]
+		if ax.Op == "ident" && env.addrOf != nil {
+			if v, ok := env.addrOf(ax.Name); ok {
+				return v
+			}
+			sfail("addr(%s): no address-taken local of that name is in scope", ax.Name)
+		}
 		if ax.Op != "sel" {
-			sfail("addr() needs a field selector")
+			sfail("addr() needs a field selector or an address-taken local")
 		}
 		base := env.tr(ax.Args[0])
 		p, ok := base.Ty.Underlying().(*types.Pointer)
